@@ -55,7 +55,7 @@ def yield_filter(op: str, path: str, phase: tuple) -> bool:
     return False
 
 
-def run_case(ctx, txns: List[Dict[str, Any]], chooser_factory, age_jump: int) -> Dict[str, Any]:
+def run_case(ctx, txns: List[Dict[str, Any]], chooser_factory, age_jump: int, second_gc: bool = False) -> Dict[str, Any]:
     """txns: [{"kind": "append"|"rollback", "rows": [...]}]; actor G = collector; actor K = the clock (jumps by age_jump)."""
     import datashard
     import datashard.garbage_collector as gcmod
@@ -123,13 +123,21 @@ def run_case(ctx, txns: List[Dict[str, Any]], chooser_factory, age_jump: int) ->
                     return "rolledback"
                 return body
 
+            gc_windows: List[Dict[str, int]] = []
+
             def gc_body() -> Any:
                 t = datashard.load_table(root)
-                gc_window["start"] = sc.clock_ms
+                w = {"start": sc.clock_ms}
+                gc_windows.append(w)
                 try:
                     return t.garbage_collect(grace_period_ms=GRACE)
                 finally:
-                    gc_window["end"] = sc.clock_ms
+                    w["end"] = sc.clock_ms
+                    # the proviso is judged on the LONGEST run of the case
+                    done = [x for x in gc_windows if "end" in x]
+                    longest = max(done, key=lambda x: x["end"] - x["start"])
+                    gc_window.clear()
+                    gc_window.update(longest if len(done) == len(gc_windows) else {"start": longest["start"]})
 
             def clock_body() -> Any:
                 for _ in range(2):
@@ -139,6 +147,8 @@ def run_case(ctx, txns: List[Dict[str, Any]], chooser_factory, age_jump: int) ->
             for i, spec in enumerate(txns):
                 sc.spawn(f"A{i}", tx_body(i, spec))
             sc.spawn("G", gc_body)
+            if second_gc:
+                sc.spawn("H", gc_body)          # a second collection run (schedules keep it after G's)
             sc.spawn("K", clock_body)
             sc.step_hook = lambda a: setattr(sc, "clock_ms", sc.clock_ms + 1)
             enabled_at: List[List[str]] = []
@@ -190,6 +200,7 @@ def project(out: Dict[str, Any], ntx: int) -> Tuple[List[str], Optional[str]]:
     data_of: Dict[str, int] = {}              # data file basename -> transaction
     marked: Dict[int, bool] = {}
     last_clock = None
+    gc_open: List[Optional[str]] = [None]
     for e in out["log"]:
         a, op, path, phase = e["actor"], e["op"], e["path"], e["phase"]
         pcs = P.path_class(path)
@@ -217,9 +228,17 @@ def project(out: Dict[str, Any], ntx: int) -> Tuple[List[str], Optional[str]]:
                     evs.append(f"TMarkD {t}%nat")
             elif op == "delete_file" and pcs == "data" and "Transaction._rollback" in phase:
                 evs.append(f"TRollback {t}%nat")
-        elif a == "G" and any(p.startswith("GarbageCollector.") for p in phase):
+        elif a in ("G", "H") and any(p.startswith("GarbageCollector.") for p in phase):
             if op == "list_files" and path.rstrip("/") == "metadata/inflight":
+                if gc_open[0] is not None and gc_open[0] != a:
+                    evs.append("GEnd")          # the previous run is over (schedules never overlap two collectors)
+                gc_open[0] = a
                 evs.append("GMarks")
+            elif op == "delete_file" and pcs == "marker":
+                # every marker of these runs is younger than the abandonment window (24 h): the collector has no business
+                # removing one -- the file it names loses its protection for the rest of its transaction
+                return evs, (f"collector removed the in-flight marker {path.rsplit('/', 1)[-1]}, which is younger than the abandonment "
+                             f"window (in {phase[-1] if phase else '?'})")
             elif op in ("read_file",) and pcs == "hint" and "GarbageCollector.collect" in phase and "GarbageCollector._load_inflight_protection" not in phase \
                     and "GarbageCollector._require_hinted_metadata_present" not in phase:
                 # (the hint re-read of _require_hinted_metadata_present only decides abort / go on: the view of the table
@@ -325,6 +344,24 @@ def directed_retry(ctx, txns, quick: bool):
         yield [("segments", seg)], run_case(ctx, txns, segment_chooser(seg), 5000)
 
 
+def directed_two_runs(ctx, txns, quick: bool):
+    """Two collection runs around one long transaction: the first run (G) falls entirely between two steps of the
+    transaction's write phase (marker written / file not yet written / file written), the transaction goes on, the clock
+    jumps (the file is old now), and the second run (H) is interleaved with the rest of the transaction at every point."""
+    probe = run_case(ctx, txns, segment_chooser([("A0", 10**6), ("K", 10**6), ("G", 10**6), ("H", 10**6)]), 5000, second_gc=True)
+    a0 = [e for e in probe["log"] if e["actor"] == "A0"]
+    # scheduler steps of A0 up to (and including) its data-file write
+    dw = next((n for n, e in enumerate(a0) if e["op"] == "DataW"), len(a0) - 1)
+    upto = 1 + sum(1 for e in a0[:dw + 1] if yield_filter(e["op"], e["path"], e["phase"]))
+    nh = sum(1 for a in probe["schedule"] if a == "H")
+    combos = [(i, j, k) for i in range(1, upto + 1) for j in range(0, upto - i + 3) for k in range(0, nh + 1)]
+    if quick and len(combos) > 110:
+        combos = ctx.rng.sample(combos, 110)
+    for i, j, k in combos:
+        seg = [("A0", i), ("G", 10**6), ("A0", j), ("K", 10**6), ("H", k), ("A0", 10**6), ("H", 10**6)]
+        yield [("segments2", seg)], run_case(ctx, txns, segment_chooser(seg), 5000, second_gc=True)
+
+
 TXSETS = [
     [{"kind": "append", "rows": [{"x": 100}]}],
     [{"kind": "append", "rows": [{"x": 100}]}, {"kind": "rollback", "rows": [{"x": 200}]}],
@@ -350,6 +387,8 @@ def run(ctx) -> None:
             runs += list(directed(ctx, txns, quick))
         if ti == 2:
             runs += list(directed_retry(ctx, txns, quick))
+        if ti == 0:
+            runs += list(directed_two_runs(ctx, txns, quick))
         for k in range(10 if quick else 200):
             seed = ctx.rng.randrange(1 << 30)
             runs.append(([("random", seed)], run_case(ctx, txns, lambda sc, seed=seed: S.random_chooser(_r.Random(seed), 0.4), 5000)))
@@ -394,7 +433,9 @@ def replay(ctx, payload) -> int:
         print("replay: no concrete case")
         return 2
     dev = c.get("deviations", [])
-    if dev and dev[0][0] == "segments":
+    if dev and dev[0][0] == "segments2":
+        out = run_case(ctx, c["txns"], segment_chooser([(a, n) for a, n in dev[0][1]]), c.get("age_jump", 5000), second_gc=True)
+    elif dev and dev[0][0] == "segments":
         out = run_case(ctx, c["txns"], segment_chooser([(a, n) for a, n in dev[0][1]]), c.get("age_jump", 5000))
     elif dev and dev[0][0] == "random":
         out = run_case(ctx, c["txns"], lambda sc: S.random_chooser(_r.Random(dev[0][1]), 0.4), c.get("age_jump", 5000))
